@@ -1427,6 +1427,82 @@ def scenarios_boost(seed, n, op='from_data'):
     return out
 
 
+def scenarios_vol(seed, n, op='from_data'):
+    """`pane.types.ValueOrList[T]` (one T, or a list of T): bare, as a list element, as a dataclass field, next to another union
+    member; data that is a T, a list of T, a list with one bad element, a T that is itself a list, or something else"""
+    g = random.Random(seed)
+    out = []
+    for i in range(n):
+        ge = Gen(g.randrange(1 << 62), max_depth=1, classes=False, noinit=(op not in ('roundtrip', 'convert2', 'into_data')))
+        ge.no_dt_sub = True
+        r = ge.r
+        inner = r.choice(['int', 'int', 'str', 'float', 'bool', 'Fraction', 'date', {'union': ['int', 'str']}, {'seq': ['list', 'int']}, {'tuple': ['int', 'str']},
+                          {'lit': ['a', {'i': '1'}]}, 'any', None])
+        ty = {'vol': inner}
+        ity = inner if inner is not None else 'any'
+        p = r.random()
+        try:
+            if p < 0.3:
+                v = ge.valid(ity)
+            elif p < 0.6:
+                v = [ge.valid(ity) for _ in range(r.randint(0, 3))]
+            elif p < 0.8:
+                v = [ge.valid(ity) for _ in range(r.randint(1, 3))]
+                v[r.randrange(len(v))] = ge.mutate(ge.valid(ity))
+            else:
+                v = ge.arbitrary()
+            wire = ENC.enc(v)
+            json.dumps(wire)
+        except Exception:
+            wire = ENC.enc([1, 'x'])
+        decl = ge.decl
+        shape = r.choice(['bare', 'bare', 'list', 'field', 'union'])
+        if shape == 'list':
+            ty, wire = {'seq': ['list', ty]}, {'l': [wire, wire]}
+        elif shape == 'field':
+            name = f'Vo{seed % 1000}x{i}'
+            decl['classes'].append({'name': name, 'fields': [{'name': 'items', 'ty': ty}, {'name': 'n', 'ty': 'int', 'default': {'value': {'i': '0'}}}], 'opts': {}, 'hook': None})
+            ty, wire = {'cls': [name, []]}, {'d': [['items', wire]]}
+        elif shape == 'union':
+            ty = {'union': [ty, 'NoneType']} if r.random() < 0.5 else {'union': ['NoneType', ty]}
+        out.append({'id': f'vo{seed}:{i}', 'decl': decl, 'op': op, 'ty': ty, 'val': wire, 'spell': 0, 'stream': 'vol'})
+    return out
+
+
+def scenarios_registered(seed, n):
+    """C18, last clause: process-wide handlers (`register_converter_handler`) are consulted AFTER the call-level / class-level
+    handlers, the type's own converter protocol and the scalar built-ins, and BEFORE the structural built-ins (enums,
+    sequences, mappings, subclasses of scalars): one registered function-form handler answering for a few heads, an optional
+    call-level handler for the same heads, and a type / value that reaches one of them"""
+    g = random.Random(seed)
+    out = []
+    for i in range(n):
+        ge = Gen(g.randrange(1 << 62), max_depth=1, classes=False)
+        r = ge.r
+        en = ge.gen_enum()                       # declares an enum
+        ename = en['enum']
+        sb = ge.gen_sub()                        # a user subclass of int / str / float / bytes
+        sname, sbase = sb['sub']
+        cname = f'Rg{seed % 1000}x{i}'
+        ge.decl['classes'].append({'name': cname, 'fields': [{'name': 'x', 'ty': 'int'}], 'opts': {}, 'hook': None})
+        # (not the base scalar of the user subclass: its converter hands a handler's product to the subclass constructor, a value the
+        # per-scenario table of stdlib results does not list)
+        heads = r.sample([h for h in ['int', 'str', ename, sname, 'list', 'dict', cname, 'float'] if h != sbase], r.randint(1, 4))
+        reg = [{'entries': [[h, 'tagint:%d' % (3 + k)] for k, h in enumerate(heads)], 'exactOnly': False}]
+        hs = None
+        if r.random() < 0.35:
+            hs = {'globals': [{'entries': [[r.choice(heads), 'tagint:11']], 'exactOnly': r.random() < 0.5}]}
+        target = r.choice(['int', 'str', en, sb, {'seq': ['list', 'int']}, {'map': ['dict', ['str', 'int']]}, {'cls': [cname, []]}, 'float',
+                           {'seq': ['list', en]}, {'union': [sb, 'NoneType']}, {'tuple': ['int', sb]}])
+        v = r.choice([5, 2, 'a', [1, 2], {'k': 1}, {'x': 4}, 2.5, None, [5, 5]])
+        sc = {'id': f'rg{seed}:{i}', 'decl': ge.decl, 'op': r.choice(['from_data', 'from_data', 'build']), 'ty': target, 'val': ENC.enc(v), 'spell': 0,
+              'stream': 'registered', 'registered': reg}
+        if hs:
+            sc['handlers'] = hs
+        out.append(sc)
+    return out
+
+
 def scenarios_hashtable(seed, n=0):
     """the full (unsafe_hash, eq, frozen, explicit __hash__) cube through class creation"""
     out = []
